@@ -73,7 +73,7 @@ fn parked(actor: &str) -> Option<String> {
 }
 
 fn batch_done_count(id: &str) -> usize {
-    vh::vnode::emit_count("matcher.batch_done", id)
+    vh::vnode::emit_count("matcher.batch_done.big", id)
 }
 
 #[derive(Clone, Debug, serde::Serialize, serde::Deserialize)]
